@@ -144,6 +144,11 @@ func genMsg(r *rand.Rand, kind string, tag int) *dynamicpb.Message {
 		am.Set(am.Descriptor().Fields().ByName("type_url"), protoreflect.ValueOfString(a.GetTypeUrl()))
 		am.Set(am.Descriptor().Fields().ByName("value"), protoreflect.ValueOfBytes(a.GetValue()))
 		m.Set(fd(m, "kind_e"), protoreflect.ValueOfEnum(protoreflect.EnumNumber(1+r.Intn(2))))
+	case "badts":
+		// decodes from the binary form, cannot be written as JSON (timestamp out of range)
+		ts := m.Mutable(fd(m, "ts")).Message()
+		ts.Set(ts.Descriptor().Fields().ByName("seconds"), protoreflect.ValueOfInt64(1<<50))
+		setStr(m, "name", "bad-ts")
 	case "tricky":
 		// strings that stress JSON re-writing and URL embedding: a value ending in a backslash, followed (in field
 		// order) by values with spaces, quotes, escapes-looking text and URL metacharacters
